@@ -119,10 +119,30 @@ func verifNonNegative(u *verifU, after *verifSnap) {
 // gasCoin; everything else must be untouched, except the conversion of that
 // fee (gas coin volume/reserve, or the (gasCoin, base) pool).
 func verifFailedFrame(u *verifU, before, after *verifSnap, payer types.Address, gasCoin types.CoinID) {
+	// converting the fee through a pool with resting orders fills them: their
+	// owners are paid in the coin they buy and may get a closing remainder back
+	// in the coin they sell (both are increases); that is part of "converting
+	// the fee through a pool"
+	orderOwner := func(owner types.Address, coin types.CoinID) bool {
+		if gasCoin.IsBaseCoin() {
+			return false
+		}
+		for _, o := range u.orders {
+			if o.owner == owner && (o.c0 == coin || o.c1 == coin) && (o.c0 == gasCoin || o.c1 == gasCoin) {
+				return true
+			}
+		}
+		return false
+	}
 	for i, c := range before.cells {
 		a := after.cells[i]
 		same := c.v.Cmp(a.v) == 0
 		switch {
+		case c.kind == "balance" && c.owner != nil && *c.owner == payer && c.coin == gasCoin && orderOwner(payer, gasCoin):
+			// the payer's own order may be filled by its own fee: net change not separable here
+			verifAssert("C03:fee<=balance", new(big.Int).Sub(c.v, a.v).Cmp(c.v) <= 0)
+		case c.kind == "balance" && c.owner != nil && orderOwner(*c.owner, c.coin) && !(*c.owner == payer && c.coin == gasCoin):
+			verifAssert("C03:order-owner-not-debited:"+c.name, a.v.Cmp(c.v) >= 0)
 		case c.kind == "balance" && c.owner != nil && *c.owner == payer && c.coin == gasCoin:
 			dec := new(big.Int).Sub(c.v, a.v)
 			verifAssert("C03:fee>=0", dec.Sign() >= 0)
@@ -170,7 +190,13 @@ func verifDeliverCheckedFee(u *verifU, tx *Transaction, raw []byte, sender types
 	for i, c := range before.cells {
 		verifAssert("C06:checktx-does-not-mutate:"+c.name, mid.cells[i].v.Cmp(c.v) == 0)
 	}
-	resp := u.deliver(raw)
+	resp, panicked, pv := u.deliverCatch(raw)
+	if panicked {
+		// C06: what CheckTx accepted must be deliverable; the panic itself is
+		// re-raised so that the path still ends as a panic (reported by C07)
+		verifAssert("C06:accepted-by-checktx=>deliver-does-not-panic", rc.Code != 0)
+		panic(pv)
+	}
 	after := verifSnapshot(u)
 	verifAssert("C06:check-ok<=>deliver-ok", (rc.Code == 0) == (resp.Code == 0))
 	verifConservation(u, before, after)
